@@ -7,6 +7,7 @@ import (
 	"io"
 	"os"
 	"strings"
+	"sync"
 )
 
 const (
@@ -18,7 +19,11 @@ var sniffFormats = []sniffFormat{
 	spdxSniff{},
 }
 
-var state = make(map[string]sniffState, len(sniffFormats))
+var (
+	// stateMtx guards state, the scratch data of the line-based sniffers
+	stateMtx sync.Mutex
+	state    = make(map[string]sniffState, len(sniffFormats))
+)
 
 type sniffFormat interface {
 	sniff(data []byte) Format
@@ -102,6 +107,8 @@ func (fs *Sniffer) SniffReader(f io.ReadSeeker) (Format, error) {
 
 	var format Format
 
+	stateMtx.Lock()
+	defer stateMtx.Unlock()
 	initSniffState()
 	for fileScanner.Scan() {
 		format = fs.sniff(fileScanner.Bytes())
